@@ -31,7 +31,7 @@ META = {
 KINDS = ["html_block", "html_inline", "raw_dir", "evalrst_raw", "evalrst_rawrole", "hardbreak", "strike", "html_cblock", "evalrst_mdsub",
          "include", "include_literal", "include_code", "include_angle", "evalrst_include", "csv_file", "raw_file"]
 RAWK = KINDS[:8]
-WRAPPERS = ["none", "quote", "list", "note", "sec"]
+WRAPPERS = ["none", "quote", "list", "note", "sec", "cls"]      # cls: docutils' class directive, which returns its parsed body itself
 INVS = ["NoRawWhenDisabled", "NoFileWhenDisabled", "RefusalsWarn", "MarkersKept", "AllowedPass"]
 
 _opened: list = []
@@ -88,6 +88,9 @@ def wrap(lines, wrappers):
         elif w == "note":
             fl = max([3] + [len(ln.lstrip("> -")) - len(ln.lstrip("> -").lstrip("`")) for ln in lines if ln.lstrip("> -").startswith("```")]) + 1
             lines = ["`" * fl + "{note}"] + lines + ["`" * fl]
+        elif w == "cls":
+            fl = max([3] + [len(ln.lstrip("> -")) - len(ln.lstrip("> -").lstrip("`")) for ln in lines if ln.lstrip("> -").startswith("```")]) + 1
+            lines = ["`" * fl + "{class} wcls"] + lines + ["`" * fl]
     return lines
 
 
@@ -135,6 +138,14 @@ def observe(case):
           "myst_substitutions": {f"badge{n}": f"<b>SENTINEL{n}x</b>" for n in range(1, len(case["doc"]) + 1)}}
     if case.get("suppress"):
         ov["myst_suppress_warnings"] = ["myst", "docutils"]
+    old_conf = os.environ.get("DOCUTILSCONFIG")
+    if case.get("via_conf"):
+        # the two settings come from a configuration file, written the way such files spell booleans
+        words = {True: ["yes", "on", "true", "1"], False: ["off", "no", "false", "0"]}
+        conf = d / "docutils.conf"
+        conf.write_text(f"[general]\nraw_enabled: {words[ov.pop('raw_enabled')][case['id'] % 4]}\n"
+                        f"file_insertion_enabled: {words[ov.pop('file_insertion_enabled')][(case['id'] // 4) % 4]}\n")
+        os.environ["DOCUTILSCONFIG"] = str(conf)
     _opened.clear()
     _hook[0] = True
     try:
@@ -145,6 +156,12 @@ def observe(case):
     except Exception as e:  # noqa: BLE001
         _hook[0] = False
         return {"error": f"{type(e).__name__}: {e}", "text": text}
+    finally:
+        if case.get("via_conf"):
+            if old_conf is None:
+                os.environ.pop("DOCUTILSCONFIG", None)
+            else:
+                os.environ["DOCUTILSCONFIG"] = old_conf
     _hook[0] = False
     opened = [p for p in _opened if re.search(r"(inc|data)\d+\.(md|rst|html|csv)$", p)]
     per = [{"raw": 0, "ins": 0, "warn": 0, "read": False, "marker": 0, "html": False} for _ in doc]
@@ -299,6 +316,13 @@ def run(ctx):
         ctx.traces_validated += 1
         judge(ctx, "R-suppressed", c["doc"], c["rawOn"], c["fileOn"], c["exp"], o, suppressed=True)
     ctx.leg("R-suppressed", behaviours=len(scases))
+    # ... and wherever they come from: the same single constructs with the two settings read from a docutils.conf
+    ccases = [{**c, "id": 7_000_000 + c["id"], "via_conf": True} for c in cases if len(c["doc"]) == 1 and not c.get("tight")]
+    for c, o in zip(ccases, pmap(observe, ccases, chunksize=16)):
+        ctx.count((repr(c["doc"]), c["rawOn"], c["fileOn"], "conf"), nontrivial=any(e["warn"] > 0 for e in c["exp"]))
+        ctx.traces_validated += 1
+        judge(ctx, "R-conf-file", c["doc"], c["rawOn"], c["fileOn"], c["exp"], o)
+    ctx.leg("R-conf-file", behaviours=len(ccases))
     mid = cases[len(cases) // 2]
     ctx.sample({"constructs": mid["doc"], "raw_enabled": mid["rawOn"], "file_insertion_enabled": mid["fileOn"], "expected_per_construct": mid["exp"]})
     ctx.leg("R", behaviours=len(cases))
@@ -308,7 +332,7 @@ def run(ctx):
     for t in range(200 if quick else 4000):
         doc = []
         for _ in range(rnd.randint(3, 8)):
-            ws = [rnd.choice(WRAPPERS[1:4]) for _ in range(rnd.choice([0, 0, 1, 1, 2, 3]))] + (["sec"] if rnd.random() < 0.25 else [])
+            ws = [rnd.choice(WRAPPERS[1:4] + ["cls"]) for _ in range(rnd.choice([0, 0, 1, 1, 2, 3]))] + (["sec"] if rnd.random() < 0.25 else [])
             doc.append((rnd.choice(KINDS), ws))
         vcases.append({"id": 10_000_000 + t, "doc": doc, "rawOn": rnd.random() < 0.4, "fileOn": rnd.random() < 0.4, "wd": str(ctx.wd / "docs")})
     vouts = pmap(observe, vcases, chunksize=8)
